@@ -385,10 +385,16 @@ type KeyCase struct {
 func genKey(t *rapid.T) KeyCase {
 	c := KeyCase{Prefix: str().Draw(t, "prefix")}
 	n := rapid.IntRange(0, 4).Draw(t, "nmaps")
-	keys := rapid.SliceOfN(str(), 1, 4).Draw(t, "keys")
+	// a fifth of the cases are wide: up to 12 keys per map over a pool of up to 16 keys (the key writer
+	// has size-dependent paths: sort algorithm, buffer growth)
+	maxKeys := 4
+	if rapid.IntRange(0, 4).Draw(t, "wide") == 0 {
+		maxKeys = 12
+	}
+	keys := rapid.SliceOfN(str(), 1, maxKeys+4).Draw(t, "keys")
 	for i := 0; i < n; i++ {
 		var m []KV
-		k := rapid.IntRange(0, 4).Draw(t, "n")
+		k := rapid.IntRange(0, maxKeys).Draw(t, "n")
 		for j := 0; j < k; j++ {
 			m = append(m, KV{rapid.SampledFrom(keys).Draw(t, "k"), str().Draw(t, "v")})
 		}
